@@ -171,6 +171,45 @@ theorem adds_new (l : LinkEntry) (ls : List LinkEntry) (es : List (Nat × Str ×
     mergeLinks (l :: ls) es = mergeLinks ls (es ++ [(es.length, [], some l.e)]) := by
   simp [mergeLinks, h]
 
+/-- **No arrangement of link blocks can fail the merge**: whatever the blocks say — two blocks
+    hiding the same file, a block for a file that is already hidden, blocks for files that do
+    not exist — merging them into the directory's entries yields a list. -/
+theorem merge_total (ls : List LinkEntry) : ∀ es : List (Nat × Str × Option Entry), (mergeLinks ls es).isSome = true := by
+  induction ls with
+  | nil => intro es; rfl
+  | cons l ls ih =>
+    intro es
+    unfold mergeLinks
+    split
+    · exact ih _
+    · split
+      · split
+        · exact ih _
+        · exact ih _
+      · split
+        · exact ih _
+        · exact ih _
+
+/-- a hide block (`Type=X`, `./` path) for a file that is not among the directory's entries
+    changes nothing: the listing is the one without the block -/
+theorem hide_absent_is_noop (l : LinkEntry) (ls : List LinkEntry) (es : List (Nat × Str × Option Entry))
+    (hm : l.needsmerge = true) (hx : l.e.type = some (lit "X"))
+    (habs : es.reverse.find? (fun x => x.2.1 == l.e.selector && !x.2.1.isEmpty) = none) :
+    mergeLinks (l :: ls) es = mergeLinks ls es := by
+  simp [mergeLinks, hm, habs, hx]
+
+/-- hiding marks exactly the entry with the given tag and leaves the others as they are;
+    hiding it again changes nothing -/
+theorem hide_idempotent (i : Nat) (es : List (Nat × Str × Option Entry)) :
+    let hide := fun (x : Nat × Str × Option Entry) => if x.1 == i then (x.1, x.2.1, (none : Option Entry)) else x
+    (es.map hide).map hide = es.map hide := by
+  intro hide
+  rw [List.map_map]
+  apply List.map_congr_left
+  intro x _
+  simp only [Function.comp, hide]
+  by_cases h : (x.1 == i) = true <;> simp [h]
+
 /-- `.cap` with `Type=X` or `Type=-` hides the file -/
 theorem cap_hides (c : DirCfg) (hu : c.umn = true) (d base : Str) (ch : Child) (e0 : Entry) (isf : Bool)
     (ls : List Str) (ci : LinkEntry) (rest : List LinkEntry)
@@ -198,6 +237,14 @@ example : processLinkFile (lit "/dir") (lit "/dir") none 10
     [lit "Path=./file.txt\n", lit "Name=A better name\n", lit "Abstract=first \\\n", lit "  second\n", lit "Numb=-2\n"] =
   some [{ e := { selector := lit "/dir/file.txt", name := some (lit "A better name"), num := some (-2),
                  ea := [(lit "ABSTRACT", lit "first \nsecond")] }, needsmerge := true }] := by decide +kernel
+
+/-- two link blocks hiding the same file: the file is hidden, the other entries are listed
+    (before repo commit 9bb6c87 the second block raised `ValueError` and the directory was not
+    listed at all) -/
+example :
+    let hideA : LinkEntry := { e := { selector := lit "/d/a", type := some (lit "X"), num := none }, needsmerge := true }
+    (mergeLinks [hideA, hideA] [(0, lit "/d/a", some { selector := lit "/d/a" }), (1, lit "/d/b", some { selector := lit "/d/b" })]).map
+      (·.filterMap (·.2.2)) = some [{ selector := lit "/d/b" }] := by decide +kernel
 
 /-- a `.cap` file: the path is the file's own selector -/
 example : processLinkFile (lit "/dir") (lit "/dir") (some (lit "/dir/f")) 10 [lit "Name=Capped\n", lit "Type=X\n"] =
